@@ -216,7 +216,7 @@ fn virtual_obs(cp: CP) -> Result<(BTreeSet<String>, u64), String> {
         set.borrow_mut().insert(last.borrow().clone());
         Control::Continue
     };
-    let stats = vexec::explore(None, None, 2, None, None, &mut run, &mut visit).map_err(|e| format!("{e:?}"))?;
+    let stats = vexec::explore(None, None, 2, None, None, None, &mut run, &mut visit).map_err(|e| format!("{e:?}"))?;
     Ok((set.into_inner(), stats.schedules))
 }
 
